@@ -52,11 +52,12 @@ def run(tier):
         ev = recs[v["line"] - 1]
         hd = next(recs[i] for i in range(v["line"] - 1, -1, -1) if recs[i]["ev"] == "Reset")
         start = max(i for i in range(v["line"]) if recs[i]["ev"] == "Reset")
-        rep.violation(v["clause"], SITE.get(ev.get("via"), ev.get("via", "?")), v["cond"],
+        rep.violation(v["clause"], "enforcer" if ev["ev"] == "Stats" else SITE.get(ev.get("via"), ev.get("via", "?")), v["cond"],
                       {"line": v["line"], "event": ev, "segment": hd, "history": recs[start:v["line"]][-40:], "trace": trace})
     if res["nviol"] > len(res["viol"]):
-        raise vlib.ToolError("%d violations, only %d kept by the acceptor: cannot classify all of them" % (res["nviol"], len(res["viol"])))
-    selftest(recs, wd)
+        rep.notes.append("%d violations in total, first %d kept" % (res["nviol"], len(res["viol"])))
+        rep.violation("Truncated", "acceptor", "more violations than the acceptor keeps", {"nviol": res["nviol"], "kept": len(res["viol"])})
+    selftest(recs, wd, {v["line"] for v in res["viol"]})
     return rep.finish(
         rule="a case = one admission decision (API level, configuration, candidate's level keys + ASN + hosting flag, outcome, "
              "error class) or one routing-table snapshot of the connection path; distinct by content; each judged by "
@@ -66,15 +67,19 @@ def run(tier):
         extra={"decisions_checked": res["checked"], "events": res["total"], "segments_by_api": apis})
 
 
-def selftest(recs, wd):
-    """An over-admission and a forgotten removal in an enforcer segment must be noticed."""
-    segs, cur = [], None
-    for e in recs:
+def selftest(recs, wd, badlines):
+    """An over-admission and a forgotten removal in an (otherwise clean) enforcer segment must be noticed."""
+    segs, cur, dirty = [], None, False
+    for n, e in enumerate(recs, 1):
         if e["ev"] == "Reset":
-            cur = [e]
-            segs.append(cur)
+            if cur is not None and not dirty:
+                segs.append(cur)
+            cur, dirty = [e], False
         elif cur is not None:
             cur.append(e)
+        dirty = dirty or n in badlines
+    if cur is not None and not dirty:
+        segs.append(cur)
     a = b = None
     for s in segs:
         if s[0]["api"] != "enforcer":
@@ -89,6 +94,9 @@ def selftest(recs, wd):
             if i is not None:
                 b, b_ref = [e for j, e in enumerate(s) if j != i], s
     if a is None or b is None:
+        if badlines:
+            vlib.log("self-test skipped: no enforcer segment without violations")
+            return
         raise vlib.ToolError("self-test: no usable enforcer segment")
     p = os.path.join(wd, "selftest.ndjson")
     vlib.write_ndjson(p, a_ref + a + b_ref + b)
